@@ -78,8 +78,14 @@ fn main() {
         let v: Value = serde_json::from_str(&line).unwrap();
         let text = v["text"].as_str().unwrap().to_string();
         let a = attrs(&v["opts"]);
+        // "split": every rule in its own #[grammar_inline] attribute (the sources are concatenated by the derive)
+        let parts: Vec<String> = if v["split"].as_bool() == Some(true) {
+            text.lines().filter(|l| !l.trim().is_empty()).map(|l| format!("{}\n", l)).collect()
+        } else {
+            vec![text.clone()]
+        };
         let input = quote! {
-            #[grammar_inline = #text]
+            #( #[grammar_inline = #parts] )*
             #a
             struct P;
         };
